@@ -1,10 +1,10 @@
 package main
 
 import (
-	"unicode"
 	"encoding/json"
 	"fmt"
 	"strings"
+	"unicode"
 )
 
 // Structured pug documents: every JavaScript snippet is a tree, so that the Lean model receives trees and the
